@@ -1139,7 +1139,14 @@ class HfProtocol(utils.EventEmitter):
             if not self._slc_initialized:
                 await self.initiate_slc()
             while True:
-                await self.handle_unsolicited()
+                try:
+                    await self.handle_unsolicited()
+                except HfProtocol.HfLoopTermination:
+                    raise
+                except Exception:
+                    # A malformed unsolicited result code must not stop the loop:
+                    # drop it and keep handling the following ones.
+                    logger.exception('error while handling unsolicited result code')
         except HfProtocol.HfLoopTermination:
             logger.info('Loop terminated')
         except Exception:
